@@ -409,3 +409,151 @@ def source(thorough):
     names.append(n)
     src += s
   return src, names, ['k_lexical_errors']
+
+
+# ---- whole-ParseFile invariance under layout noise (solver-driven enumeration of placements)
+WHOLE_PROGRAMS = [
+    ('facts_rules', 'T(1, "a b");\nT(2, "c:-d");\nP(x, y) :- T(x, y), x > 0 | T(y, x), ~T(x, x);\n'),
+    ('strings', 'S("(", \'[\', "}); -- /* #", """tri"ple""");\nQ(x ++ ")") :- S(x, y, z, w), x != ";";\n'),
+    ('combines', 'P(x, u, v, w) :- G(x), u == Sum{ y :- E(x, y) }, v Max= ( y :- F(x, y), y > u ), w == ( combine List= y + v :- E(y, x) );\n'),
+    ('aggregation', 'A(x, s? += y, m? Max= y) distinct :- E(x, y);\nB(x) Min= y :- E(x, y);\nC(x) = y :- B(x) == y, A(x, s: y);\n'),
+    ('records_lists', 'R({ a: 1, b: [1, 2, 3] });\nP(r.a, l, Element(l, 0), x) :- R(r), l == r.b, x in l, x in [r.a, 2];\n'),
+    ('if_impl', 'P(x, y) :- G(x), y == ( if x > 1 then x + 1 else ( if x < 0 then 0 else x ) ), ( E(x, z) => F(z, x) );\n'),
+    ('functors_annotations', '@Engine("sqlite");\n@OrderBy(Top, "col0 desc");\n@Limit(Top, 2);\nTop(x) :- Data(x);\nOther(x) :- E(x, y);\nTotal() += x :- Top(x);\nOtherTotal := Total(Data: Other);\n'),
+    ('denotations', 'P(x, y) order_by("col0", "col1 desc") limit(3) :- E(x, y), y in Range(x);\nF(x) = 2 * x + ( -x );\nQ(F(x), z) :- P(x, y), z == F(F(y));\n'),
+]
+
+WHOLE = r'''
+WHOLE_TEXTS = %(texts)r
+NOISE = [' ', '\n', '\t', ' /* note */ ', ' # note\n', '\n\n', ' /* ); " :- [ */ ', ' # ); " :- [\n']
+
+
+def _ws_positions(text):
+  # offsets of blanks that are outside string literals (own scanner: double-quoted, single-quoted
+  # with backslash escapes, backticked and triple-quoted forms)
+  out = []
+  i = 0
+  n = len(text)
+  while i < n:
+    c = text[i]
+    if text.startswith('"""', i):
+      j = text.index('"""', i + 3)
+      i = j + 3
+    elif c == '"':
+      i = text.index('"', i + 1) + 1
+    elif c == '`':
+      i = text.index('`', i + 1) + 1
+    elif c == "'":
+      j = i + 1
+      while text[j] != "'":
+        j += 2 if text[j] == chr(92) else 1
+      i = j + 1
+    else:
+      if c in ' \n':
+        out.append(i)
+      i += 1
+  return out
+
+
+WHOLE_POS = [_ws_positions(t) for t in WHOLE_TEXTS]
+
+
+def _plain(n):
+  """parse tree without the source snippets it carries"""
+  if isinstance(n, dict):
+    return dict((k, _plain(v)) for k, v in n.items() if k not in ('full_text', 'expression_heritage'))
+  if isinstance(n, list):
+    return [_plain(x) for x in n]
+  if isinstance(n, str):
+    return str(n)
+  return n
+
+
+def _spans_ok(n):
+  if isinstance(n, parse.HeritageAwareString):
+    return n.heritage[n.start:n.stop] == str(n)
+  if isinstance(n, dict):
+    return all(_spans_ok(v) for v in n.values())
+  if isinstance(n, list):
+    return all(_spans_ok(x) for x in n)
+  return True
+
+
+def _parse(text):
+  parse.TOO_MUCH = 'too much'
+  return parse.ParseFile(text)['rule']
+
+
+WHOLE_BASE = [_plain(_parse(t)) for t in WHOLE_TEXTS]
+
+
+KEYWORDS = ('in', 'combine', 'if', 'then', 'else', 'is', 'not')
+
+
+def _next_to_keyword(text, at):
+  import re
+  before = re.findall(r'[A-Za-z_]+$', text[:at])
+  after = re.findall(r'^[A-Za-z_]+', text[at + 1:])
+  return (before and before[0] in KEYWORDS) or (after and after[0] in KEYWORDS)
+
+
+def whole_ok(pi, pos, kind):
+  text = WHOLE_TEXTS[pi]
+  at = WHOLE_POS[pi][pos]
+  noisy = text[:at] + NOISE[kind] + text[at + 1:] if kind in (1, 4, 5, 7) or text[at] == ' ' else text[:at] + NOISE[kind] + text[at:]
+  try:
+    rules = _parse(noisy)
+  except parse.ParsingException:
+    # known finding KF-C15-keyword-needs-blanks: a line break or tab (instead of a blank) right next
+    # to a keyword operator is a parse error; only that outcome, only there, is accepted
+    return (chr(10) in NOISE[kind] or chr(9) in NOISE[kind]) and bool(_next_to_keyword(text, at))
+  return _plain(rules) == WHOLE_BASE[pi] and _spans_ok(rules)
+
+
+def semicolon_ok(pi, variant):
+  text = WHOLE_TEXTS[pi]
+  if variant == 0:
+    t2 = text.rstrip().rstrip(';') + '\n'       # last statement without its semicolon
+  elif variant == 1:
+    t2 = text.rstrip() + '\n\n  \n'                 # trailing blank lines
+  else:
+    t2 = '\n  ' + text                             # leading blanks
+  rules = _parse(t2)
+  return _plain(rules) == WHOLE_BASE[pi] and _spans_ok(rules)
+'''
+
+
+def whole_source():
+  from .. import variants
+  src = WHOLE % dict(texts=[t for n, t in WHOLE_PROGRAMS]) + variants.UNTRACED
+  names = []
+  for i, (name, text) in enumerate(WHOLE_PROGRAMS):
+    npos = len([1 for _ in text])   # placeholder, real count computed in the harness
+    fn = 'k_whole_layout_%s' % name
+    names.append(fn)
+    src += '''
+
+def %(fn)s(pos: int, kind: int) -> bool:
+  """
+  pre: 0 <= pos < len(WHOLE_POS[%(i)d]) and 0 <= kind < len(NOISE)
+  post: _
+  """
+  p = concretise(pos, len(WHOLE_POS[%(i)d]))
+  k = concretise(kind, len(NOISE))
+  with untraced():
+    return whole_ok(%(i)d, p, k)
+''' % dict(fn=fn, i=i)
+  names.append('k_whole_semicolon')
+  src += '''
+
+def k_whole_semicolon(pi: int, variant: int) -> bool:
+  """
+  pre: 0 <= pi < len(WHOLE_TEXTS) and 0 <= variant < 3
+  post: _
+  """
+  p = concretise(pi, len(WHOLE_TEXTS))
+  v = concretise(variant, 3)
+  with untraced():
+    return semicolon_ok(p, v)
+'''
+  return 'from parser_py import parse\n' + src, names
